@@ -135,6 +135,46 @@ def run_case(i, rng, rec, tier, state):
                     near += [nm_ + "{", nm_ + "}", "{" + nm_, nm_ + "{}", "{" + nm_ + "}", nm_ + "{0}", nm_ + "%s", nm_ + "%", "%(" + nm_ + ")s",
                              nm_ + "\\", nm_ + "\x00", nm_ + "[0]", nm_ + "*", "^" + nm_ + "$", nm_ + "'", nm_ + '"']
                 near = [x for x in dict.fromkeys(near) if x not in set(F.names)]
+                # a listed name is a listed name in whatever string type the caller holds it (numpy string, a str subclass, a member
+                # of a str-valued Enum - all equal to and hashing like the plain string); and something that merely *prints* as a
+                # listed name (a path, bytes, an object with a __str__) is not a name
+                import enum
+                import pathlib
+
+                class _Tagged(str):
+                    def __str__(self):
+                        return "Tagged<" + str.__str__(self) + ">"
+
+                class _Prints:
+                    def __init__(self, t):
+                        self.t = t
+
+                    def __str__(self):
+                        return self.t
+
+                    __repr__ = __str__
+
+                for nm_ in (first, mid):
+                    with contracts.quiet():
+                        ref_ = np.asarray(F.get_shape(nm_).vertices, float)
+                    member = enum.Enum("Solid", {"ITEM": nm_}, type=str).ITEM
+                    for form, obj in (("numpy.str_", np.str_(nm_)), ("str subclass with its own __str__", _Tagged(nm_)), ("member of a str-valued Enum", member)):
+                        rec.cls("name-form:" + form)
+                        try:
+                            got_ = np.asarray(F.get_shape(obj).vertices, float)
+                            rec.check("iteration=names=get_shape", got_.shape == ref_.shape and bool(np.all(got_ == ref_)),
+                                      "get_shape/listed-name-in-another-string-type-gives-another-shape", {"name": nm_, "form": form})
+                        except Exception as e:
+                            rec.violation("iteration=names=get_shape", f"get_shape/listed-name-in-another-string-type-raises-{type(e).__name__}", {"name": nm_, "form": form, "exc": repr(e)[:200]})
+                    for form, obj in (("pathlib path", pathlib.PurePosixPath(nm_)), ("bytes", nm_.encode()), ("object that prints as the name", _Prints(nm_))):
+                        rec.cls("not-a-name:" + form)
+                        try:
+                            F.get_shape(obj)
+                            rec.violation("unknown-key-KeyError", "get_shape/object-that-only-prints-as-a-name-accepted", {"name": nm_, "form": form})
+                        except KeyError:
+                            rec.ok("unknown-key-KeyError")
+                        except Exception as e:
+                            rec.violation("unknown-key-KeyError", f"get_shape/unknown-name-raises-{type(e).__name__}", {"name": nm_, "form": form})
                 for bad in ["No Such Solid", "cube", ""] + near:
                     try:
                         F.get_shape(bad)
